@@ -499,3 +499,71 @@ def real_h_damaged(a, b, c):
 
 def _sizes():
     return {"ndoc": NDOC, "npaths": NPATHS}
+
+
+# ----------------------------------------------------------------------------------------------- A-md5 is an assumption about md5, not about calculate_checksum: the real function must hash the WHOLE file
+SIZES = [0, 1, 4095, 4096, 8192, 65535, 65536, 65537, 131072, 200001]
+DELTAS = [0, 1, 2, 4095, 4096, 8191, 8192, 65535, 65536, 65537, 131071, 131072, 200000]      # offset of the one byte that differs between the two versions of the file
+
+
+@untraced
+def _checksum_case(si, di):
+    """two files of SIZES[si] bytes that differ in exactly one byte at offset DELTAS[di] (if it lies inside): the real calculate_checksum of each must be the md5 of all
+    of its bytes - so the two checksums differ. The file is served by an in-memory binary stream, whichever way the function reads it (read(), read(n), iteration, readinto)."""
+    import hashlib
+    import io
+    import codelimit.common.utils as cu
+    n, off = SIZES[si], DELTAS[di]
+    base = bytes((i * 31 + (i >> 8)) % 251 for i in range(n))
+    other = bytearray(base)
+    if off < n:
+        other[off] ^= 0x55
+    other = bytes(other)
+    files = {"/w/one.py": base, "/w/two.py": other}
+    saved = cu.__dict__.get("open")
+    cu.open = lambda p, mode="r", *a, **k: io.BytesIO(files[str(p)])
+    bad = []
+    try:
+        c1, c2 = cu.calculate_checksum("/w/one.py"), cu.calculate_checksum("/w/two.py")
+    finally:
+        if saved is None:
+            del cu.open
+        else:
+            cu.open = saved
+    if c1 != hashlib.md5(base).hexdigest() or c2 != hashlib.md5(other).hexdigest():
+        bad.append("checksum-is-not-the-md5-of-the-whole-file")
+    if (c1 == c2) != (base == other):
+        bad.append("changed-content-same-checksum")
+    return bad
+
+
+def h_checksum(si: int, di: int) -> bool:
+    """
+    pre: 0 <= si < len(SIZES) and 0 <= di < len(DELTAS)
+    post: _
+    """
+    bad = _checksum_case(_sel(si, 0, len(SIZES) - 1), _sel(di, 0, len(DELTAS) - 1))
+    return fin(bad == [], si >= 5 and di >= 5)
+
+
+def real_h_checksum(si, di):
+    """replay on a real temporary file, nothing stubbed"""
+    import hashlib
+    import os
+    import tempfile
+    from codelimit.common.utils import calculate_checksum
+    n, off = SIZES[si], DELTAS[di]
+    data = bytearray(bytes((i * 31 + (i >> 8)) % 251 for i in range(n)))
+    if off < n:
+        data[off] ^= 0x55
+    d = tempfile.mkdtemp(prefix="verif-c09-")
+    try:
+        p = os.path.join(d, "two.py")
+        with open(p, "wb") as f:
+            f.write(bytes(data))
+        got = calculate_checksum(p)
+    finally:
+        import shutil
+        shutil.rmtree(d, ignore_errors=True)
+    want = hashlib.md5(bytes(data)).hexdigest()
+    return {"reproduced": got != want, "sig": "checksum:not-the-md5-of-the-whole-file", "detail": f"file of {n} bytes: calculate_checksum -> {got}, md5 of its bytes {want}"}
